@@ -105,6 +105,35 @@ func featuresDump(f graphql.FeatureSet) string {
 	return strings.Join(keys, "+")
 }
 
+var sharedColor = &graphql.EnumType{
+	Name: "Color",
+	Values: map[string]*graphql.EnumValueDefinition{
+		"RED": {Value: "red"}, "GREEN": {Value: "green"}, "BLUE": {Value: "blue"},
+	},
+}
+
+var sharedInp = func() *graphql.InputObjectType {
+	inp := &graphql.InputObjectType{Name: "Inp"}
+	inp.Fields = map[string]*graphql.InputValueDefinition{
+		"i":      {Type: graphql.IntType},
+		"f":      {Type: graphql.FloatType, DefaultValue: 1.5},
+		"s":      {Type: graphql.StringType},
+		"b":      {Type: graphql.BooleanType},
+		"id":     {Type: graphql.IDType},
+		"e":      {Type: sharedColor},
+		"es":     {Type: graphql.NewListType(graphql.NewNonNullType(sharedColor))},
+		"l":      {Type: graphql.NewListType(graphql.IntType)},
+		"nested": {Type: inp},
+	}
+	inp.ResultCoercion = func(v interface{}) (map[string]interface{}, error) {
+		m, _ := v.(map[string]interface{})
+		return m, nil
+	}
+	return inp
+}()
+
+var sharedColorList = graphql.NewListType(graphql.NewNonNullType(sharedColor))
+
 func newAPI(c config, rec *recorder) *apifu.API {
 	cfg := &apifu.Config{}
 	logged := func(name string, f func(ctx graphql.FieldContext) (interface{}, error)) func(ctx graphql.FieldContext) (interface{}, error) {
@@ -120,27 +149,10 @@ func newAPI(c config, rec *recorder) *apifu.API {
 			Resolve:   logged(name, func(ctx graphql.FieldContext) (interface{}, error) { return ctx.Arguments["x"], nil }),
 		})
 	}
-	color := &graphql.EnumType{
-		Name: "Color",
-		Values: map[string]*graphql.EnumValueDefinition{
-			"RED": {Value: "red"}, "GREEN": {Value: "green"}, "BLUE": {Value: "blue"},
-		},
-	}
-	inp := &graphql.InputObjectType{Name: "Inp"}
-	inp.Fields = map[string]*graphql.InputValueDefinition{
-		"i":      {Type: graphql.IntType},
-		"f":      {Type: graphql.FloatType, DefaultValue: 1.5},
-		"s":      {Type: graphql.StringType},
-		"b":      {Type: graphql.BooleanType},
-		"id":     {Type: graphql.IDType},
-		"e":      {Type: color},
-		"l":      {Type: graphql.NewListType(graphql.IntType)},
-		"nested": {Type: inp},
-	}
-	inp.ResultCoercion = func(v interface{}) (map[string]interface{}, error) {
-		m, _ := v.(map[string]interface{})
-		return m, nil
-	}
+	// the enum, the input object and the wrapper types around them are package-level values shared
+	// by every API of the run (the usual way type definitions are written), so that an API built
+	// through the clone path and one built directly start from the very same definitions
+	color, inp := sharedColor, sharedInp
 	objType := &graphql.ObjectType{Name: "Obj"}
 	objType.Fields = map[string]*graphql.FieldDefinition{
 		"a":      {Type: graphql.IntType, Resolve: logged("Obj.a", func(ctx graphql.FieldContext) (interface{}, error) { return ctx.Object.(*obj).depth, nil })},
@@ -163,6 +175,11 @@ func newAPI(c config, rec *recorder) *apifu.API {
 		Type:      graphql.NewListType(graphql.IntType),
 		Arguments: map[string]*graphql.InputValueDefinition{"x": {Type: graphql.NewListType(graphql.NewNonNullType(graphql.IntType))}},
 		Resolve:   logged("echoList", func(ctx graphql.FieldContext) (interface{}, error) { return ctx.Arguments["x"], nil }),
+	})
+	cfg.AddQueryField("echoEnums", &graphql.FieldDefinition{
+		Type:      sharedColorList,
+		Arguments: map[string]*graphql.InputValueDefinition{"x": {Type: sharedColorList}},
+		Resolve:   logged("echoEnums", func(ctx graphql.FieldContext) (interface{}, error) { return ctx.Arguments["x"], nil }),
 	})
 	cfg.AddQueryField("echoInput", &graphql.FieldDefinition{
 		Type:      graphql.StringType,
